@@ -1,2 +1,109 @@
-(* Properties/C15.v — placeholder while the proofs are being written. *)
-From MP Require Import Common.Base Common.Tree Model.Rule Model.Prune.
+(* Properties/C15.v — prune removes exactly the offending subtrees and nothing else.
+   Only statements closed by [exact]; proofs are in Proofs/C15_*.v.
+
+   [prune orc tb strict t] is the Gallina model of validate.prune (Model/Prune.v): result
+   [POk t' l rem] = tree left ([None]: the root pruned itself), returned (id, reason) list in
+   order, ids deleted from the registry; [PCrash] = a non-rule exception escaped.
+   [prune_spec] (Spec/PruneSpec.v) is the declarative statement.  Hypotheses on the tables are
+   C04's closure condition [tables_closed] and "metadata is an element name"; both are table
+   obligations re-proved on the regenerated tables ([C15_table]).  [orc] (float/int/date/URI
+   library answers) is arbitrary. *)
+From Coq Require Import Permutation.
+From MP Require Import Common.Base Common.Tree Model.Rule Model.RuleRun Model.Prune Spec.PruneSpec Spec.TreeVal.
+From MP Require Import Proofs.C15_Eq Proofs.C15_Spec Proofs.C15_Closed Proofs.C15_Main Proofs.C15_Table.
+
+(** Table obligation (complete enumeration of Gen/Tables.v, re-run on every check) *)
+Theorem C15_table : tables_closed shipped15 = true /\ known shipped15 METADATA = true.
+Proof. exact (conj shipped15_closed shipped15_metadata). Qed.
+Print Assumptions C15_table.
+
+(** The model computes the spec: tree, list in order, registry deletions. *)
+Theorem C15_eq : forall orc tb strict,
+  tables_closed tb = true -> known tb METADATA = true ->
+  forall t,
+    prune orc tb strict t =
+    POk (fst (prune_spec orc tb strict t)) (spec_list (snd (prune_spec orc tb strict t)))
+        (spec_rem (snd (prune_spec orc tb strict t))).
+Proof. exact eq_l. Qed.
+Print Assumptions C15_eq.
+
+(** Pruning never raises. *)
+Theorem C15_total : forall orc tb strict,
+  tables_closed tb = true -> known tb METADATA = true ->
+  forall t, exists t' l rem, prune orc tb strict t = POk t' l rem.
+Proof. exact total_l. Qed.
+Print Assumptions C15_total.
+
+(** A tree rooted at a known element keeps its root. *)
+Theorem C15_root : forall orc tb strict,
+  tables_closed tb = true -> known tb METADATA = true ->
+  forall t, known tb (ft_name t) = true ->
+    prune orc tb strict t =
+    POk (Some (keep orc tb strict t)) (spec_list (removed orc tb strict t)) (spec_rem (removed orc tb strict t)).
+Proof. exact known_root_l. Qed.
+Print Assumptions C15_root.
+
+(** Postconditions: every node of the result outside metadata content ([visited]) has a known
+    name; none has a child its rule does not allow; in strict mode every such node other than
+    the root (= every child of such a node) passes single-node validation. *)
+Theorem C15_post : forall orc tb strict,
+  tables_closed tb = true -> known tb METADATA = true ->
+  forall t t' l rem, known tb (ft_name t) = true -> prune orc tb strict t = POk (Some t') l rem ->
+  forall x, visited tb t' x ->
+    known tb (ft_name x) = true /\
+    (opaque tb (ft_name x) = false ->
+     forall c, In c (ft_kids x) ->
+       known tb (ft_name c) = true /\ allowed tb (ft_name x) (ft_name c) = true /\
+       (strict = true -> node_valid orc tb c = true)).
+Proof. exact post_l. Qed.
+Print Assumptions C15_post.
+
+(** Kept nodes are untouched (same record: id and all fields) and keep their order. *)
+Theorem C15_kept : forall orc tb strict,
+  tables_closed tb = true -> known tb METADATA = true ->
+  forall t t' l rem, known tb (ft_name t) = true -> prune orc tb strict t = POk (Some t') l rem ->
+  embeds t' t.
+Proof. exact kept_l. Qed.
+Print Assumptions C15_kept.
+
+(** The returned list names removed subtree roots, each for a true reason ([entry_ok]); the
+    registry deletions are the ids of those subtrees; ids left + ids deleted = ids of the input. *)
+Theorem C15_removed_exact : forall orc tb strict,
+  tables_closed tb = true -> known tb METADATA = true ->
+  forall t t' l rem, known tb (ft_name t) = true -> prune orc tb strict t = POk (Some t') l rem ->
+  exists L : list (ftree * reason),
+    l = spec_list L /\ rem = spec_rem L /\
+    (forall u r, In (u, r) L -> entry_ok orc tb strict t u r) /\
+    Permutation (ids_of t) (ids_of t' ++ rem).
+Proof. exact removed_exact_l. Qed.
+Print Assumptions C15_removed_exact.
+
+(** Removed nodes leave the registry, kept ones stay. *)
+Theorem C15_registry : forall orc tb strict,
+  tables_closed tb = true -> known tb METADATA = true ->
+  forall t t' l rem, known tb (ft_name t) = true -> prune orc tb strict t = POk (Some t') l rem ->
+  forall store, NoDup (ids_of t) -> NoDup store -> incl (ids_of t) store ->
+    store_del_all rem store = Some (filter (fun j => negb (smem j rem)) store) /\
+    (forall i, In i (ids_of t) -> (In i rem <-> ~ In i (ids_of t'))).
+Proof. exact registry_l. Qed.
+Print Assumptions C15_registry.
+
+(** Pruning a second time removes nothing. *)
+Theorem C15_idem : forall orc tb strict,
+  tables_closed tb = true -> known tb METADATA = true ->
+  forall t t' l rem, known tb (ft_name t) = true -> prune orc tb strict t = POk (Some t') l rem ->
+  prune orc tb strict t' = POk (Some t') [] [].
+Proof. exact idem_l. Qed.
+Print Assumptions C15_idem.
+
+(** Non-vacuity: on the shipped tables the hypotheses hold and pruning does remove things. *)
+Example C15_witness_lenient :
+  known shipped15 (ft_name ex_tree) = true /\
+  prune (orc_of []) shipped15 false ex_tree =
+  POk (Some (FT (ft_d ex_tree) (tl (ft_kids ex_tree)))) [(s "a", RNotAllowed)] [s "a"; s "a1"].
+Proof. exact (conj ex_known ex_lenient). Qed.
+
+Example C15_witness_strict :
+  prune (orc_of []) shipped15 true ex_tree =
+  POk (Some (FT (ft_d ex_tree) (tl (tl (ft_kids ex_tree))))) [(s "a", RNotAllowed); (s "b", RInvalid)] [s "a"; s "a1"; s "b"].
+Proof. exact ex_strict. Qed.
